@@ -125,6 +125,7 @@ def do_call(w, alg, it, this, kind, d, ncols, dstmode, buf, tag='x', a=None, par
     """performs the call with symbolic nphase/nblock (or the concrete pair `params`); returns (outs[k][c], xs, coef, src_unchanged_ok)"""
     if params is None: nphase = z3.BitVec('nphase_' + tag, 64); nblock = z3.BitVec('nblock_' + tag, 64)
     else: nphase, nblock = params
+    if kind.endswith('b'): kind = kind[:-1]; buf = True       # history elements 'nttb' / 'inttb' / 'extb': the same call with a caller-provided buffer
     if kind in ('ntt', 'intt'):
         n = (1 << d) if d >= 0 else 0
         src = Obj(8 * n * ncols, 'src', 8); xs = fill(alg, src, n, ncols, tag)
@@ -285,6 +286,7 @@ def native_replay(ctx, d):
         lib.gv_ntt_construct(this, ctypes.c_ulong(1 << s_), ctypes.c_uint(d.get('nthreads', 1)), ctypes.c_int(1))
         U = ctypes.c_uint64
         def call_(kind, dd, a, ncols, dstmode, buf, nphase, nblock, tag):
+            if kind.endswith('b'): kind = kind[:-1]; buf = True
             if kind in ('ntt', 'intt'):
                 n = (1 << dd) if dd >= 0 else 0
                 src = (U * max(1, n * ncols))(*[x.get('%s_%d_%d' % (tag, j, c), 0) for j in range(n) for c in range(ncols)])
@@ -302,7 +304,10 @@ def native_replay(ctx, d):
             f(this, out, inp, U(NE), U(N), U(ncols), bufp, U(nphase), U(nblock))
             return [out[i] for i in range(NE * ncols)], [inp[i] for i in range(N * ncols)]
         if d.get('pre'):
-            pk, pd, pa, pncols = d['pre']; call_(pk, pd, pa, pncols, 'other', False, prm.get('nphase_y', 3), prm.get('nblock_y', 1), 'y')
+            hist_ = [d['pre']] if not isinstance(d['pre'][0], (list, tuple)) else list(d['pre'])
+            for hi, (pk, pd, pa, pncols) in enumerate(hist_):
+                if len(hist_) == 1: call_(pk, pd, pa, pncols, 'other', False, prm.get('nphase_y', 3), prm.get('nblock_y', 1), 'y')
+                else: call_(pk, pd, pa, pncols, 'other', False, 3, 1, 'y%d' % hi)
         return call_(kind, dd, a, ncols, d['dstmode'], d['buf'], nphase, nblock, 'x')
     r = core.forked(body)
     if r[0] != 'ok': return True, 'native run ended with %s %s' % r
